@@ -1,6 +1,7 @@
 package main
 
 import (
+	"go/token"
 	"fmt"
 	"strings"
 
@@ -26,25 +27,79 @@ func init() {
 	})
 }
 
-// livenessLits: the guards contain a run-liveness test.
+// livenessGuard: the guards contain a run-liveness test.
 func (m *Model) livenessGuard(gs []Lit) (bool, string) {
-	ctxNotNil := hasLit(gs, false, func(s *Sym) bool {
-		return s.Op == "bin" && s.Name == "==" && symMentions(s, "nil") && symMentions(s, m.path(m.Ctx)) && !symMentions(s, ".Err(")
-	})
-	errNil := hasLit(gs, true, func(s *Sym) bool {
-		return s.Op == "bin" && s.Name == "==" && symMentions(s, "nil") && symMentions(s, "Context.Err("+m.path(m.Ctx)+")")
-	})
-	if ctxNotNil && errNil {
-		return true, "ctx != nil && ctx.Err() == nil"
-	}
+	ok, how, _ := m.livenessLits(gs)
+	return ok, how
+}
+
+// livenessLits returns the literals that make up the run-liveness test among the guards.
+func (m *Model) livenessLits(gs []Lit) (bool, string, []Lit) {
+	var ctxNotNil, errNil, notStopped []Lit
 	stopped := m.StateConsts["StateStopped"]
-	notStopped := hasLit(gs, false, func(s *Sym) bool {
-		return s.Op == "bin" && s.Name == "==" && symMentions(s, fmt.Sprintf("%q", stopped)) && symMentions(s, m.path(m.State))
-	})
-	if notStopped {
-		return true, "state != STOPPED"
+	for _, l := range gs {
+		s := l.S
+		if s.Op != "bin" || s.Name != "==" {
+			continue
+		}
+		switch {
+		case !l.Truth && symMentions(s, "nil") && symMentions(s, m.path(m.Ctx)) && !symMentions(s, ".Err("):
+			ctxNotNil = append(ctxNotNil, l)
+		case l.Truth && symMentions(s, "nil") && symMentions(s, "Context.Err("+m.path(m.Ctx)+")"):
+			errNil = append(errNil, l)
+		case !l.Truth && symMentions(s, fmt.Sprintf("%q", stopped)) && symMentions(s, m.path(m.State)):
+			notStopped = append(notStopped, l)
+		}
 	}
-	return false, ""
+	if len(ctxNotNil) > 0 && len(errNil) > 0 {
+		return true, "ctx != nil && ctx.Err() == nil", append(ctxNotNil, errNil...)
+	}
+	if len(notStopped) > 0 {
+		return true, "state != STOPPED", notStopped
+	}
+	return false, "", nil
+}
+
+// readsUnderLock: the shared state a literal tests was read inside function f with the given
+// lock in the must-lockset (the topmost instruction of f in each branch of the literal's
+// expression: the load itself, or the call of the accessor that performs it). A test made
+// before the lock is taken says nothing about the state inside the critical section.
+func (m *Model) readsUnderLock(l Lit, f *ssa.Function, la *LockAnalysis, lock string) (bool, ssa.Instruction) {
+	found, okAll := false, true
+	var bad ssa.Instruction
+	var walk func(s *Sym)
+	walk = func(s *Sym) {
+		if s == nil {
+			return
+		}
+		if in, ok := s.V.(ssa.Instruction); ok && in.Parent() == f {
+			switch x := s.V.(type) {
+			case *ssa.Call:
+				found = true
+				must := la.MustBefore(x)
+				if !must[lock+"/W"] && !must[lock+"/R"] {
+					okAll = false
+					bad = x
+				}
+				return
+			case *ssa.UnOp:
+				if x.Op == token.MUL {
+					found = true
+					must := la.MustBefore(x)
+					if !must[lock+"/W"] && !must[lock+"/R"] {
+						okAll = false
+						bad = x
+					}
+					return
+				}
+			}
+		}
+		for _, a := range s.Args {
+			walk(a)
+		}
+	}
+	walk(l.S)
+	return found && okAll, bad
 }
 
 func checkC02(c *Ctx) {
@@ -139,9 +194,17 @@ func checkC02(c *Ctx) {
 			key := "claim set in " + shortFn(unit)
 			c.check(la.MustBefore(in)[m.implMuW()], "R2", key+" under the election mutex", in, "must-lockset %s", la.MustBefore(in))
 			gs := m.GuardsAt(in)
-			live, how := m.livenessGuard(gs)
+			live, how, lits := m.livenessLits(gs)
+			for _, l := range lits {
+				if ok, at := m.readsUnderLock(l, unit, la, m.path(m.Mu)); !ok {
+					live = false
+					how = fmt.Sprintf("%s, but %s is read outside the critical section (at %s)", how, clip(l.S.String(), 80), c.posOf(at))
+				}
+			}
 			if live {
 				c.ok("R2", key+" only while the election runs", in, "guarded by %s inside the critical section", how)
+			} else if how != "" {
+				c.viol("R2", key+" only while the election runs", in, "the run-liveness test is not made inside the critical section that sets the claim: %s. Stop can complete between the test and the lock.", how)
 			} else {
 				c.viol("R2", key+" only while the election runs", in,
 					"no run-liveness test (ctx != nil && ctx.Err() == nil, or state != STOPPED) guards the claim inside the critical section (guards: %s). An acquisition that completes after Stop has returned sets IsLeader()==true for good: nothing refreshes the record or clears the claim any more.", fmtLits(gs))
